@@ -144,7 +144,7 @@ def ifaceNamesY (D : Decls) : TyRef → List (String × Nat)
 /-- may a value of dynamic type `d` be assigned to the interface type `ity` -/
 def assignLegal (w : Who) (F : Facts) (D : Decls) (d : DynT) (ity : TyRef) : Bool :=
   match w with
-  | .yaegi => implementsY F D d.t (ifaceNamesY D ity)
+  | .yaegi => implementsY F D d.t d.ptr (ifaceNamesY D ity)
   | .go => implements D d (tyMethods D ity)
 
 /-- `typecheck.typeAssertionExpr` for a non-interface target type: for every method name of the
@@ -156,7 +156,7 @@ def assertLegalY (F : Facts) (D : Decls) (src : TyRef) (ty : TyRef) : Bool :=
     ims.all (fun im =>
       match lookupMethodY F D t im.1 with
       | none => false
-      | some h => (isPtr || !h.meth.ptr) && h.meth.sig == im.2)
+      | some h => (isPtr || !h.meth.ptr || (F.assertPtrOwnOnly && !h.path.isEmpty)) && h.meth.sig == im.2)
   if ims.isEmpty then true else
   match ty with
   | .ptr t => chk t true
@@ -248,7 +248,8 @@ def checkStmt (w : Who) (F : Facts) (D : Decls) (e : SEnv) : Stmt → Option SEn
     (match slook e y with
      | some (.ifc src) =>
        (match w with
-        | .yaegi => some e
+        | .yaegi =>
+          if !F.tswitchCasesChecked || cs.all (fun c => c.all (fun ty => ty == .nil || assertLegalY F D src ty)) then some e else none
         | .go => if cs.all (fun c => c.all (fun ty => assertLegal D (tyMethods D src) ty)) then some e else none)
      | _ => none)
   | .host _ _ => some e
